@@ -212,6 +212,20 @@ func (e *Engine) evCall(c *ast.CallExpr, st *State) []Value {
 				d := e.ev(c.Args[2], st)
 				return []Value{{sx("fsplit", a.T, b.T, d.T), types.Typ[types.Bool]}}
 			}
+		case "bsplit":
+			// bsplit(x, lo, mid, hi): the instance "x[lo:hi] is x[lo:mid] followed by x[mid:hi]" of the merge law, for a
+			// string or byte slice x (used in `hint` clauses; valid for lo <= mid <= hi)
+			if e.isSpecHelper(id) && len(c.Args) == 4 {
+				e.declareWriterTheory()
+				x := e.ev(c.Args[0], st)
+				lo := e.ev(c.Args[1], st)
+				mid := e.ev(c.Args[2], st)
+				hi := e.ev(c.Args[3], st)
+				arr, off, _ := e.bytesOf(st, x)
+				whole := sx("bseq", arr, e.add(off, lo.T), e.add(off, hi.T))
+				parts := sx("cat", sx("bseq", arr, e.add(off, lo.T), e.add(off, mid.T)), sx("bseq", arr, e.add(off, mid.T), e.add(off, hi.T)))
+				return []Value{{implies(and(e.le(lo.T, mid.T), e.le(mid.T, hi.T)), eq(whole, parts)), types.Typ[types.Bool]}}
+			}
 		case "cat", "sub", "lit", "eps":
 			// byte sequences (abstract sort BSeq): concatenation, the bytes s[lo:hi], the bytes of a string, the empty sequence
 			if e.isSpecHelper(id) {
@@ -261,7 +275,7 @@ func (e *Engine) evCall(c *ast.CallExpr, st *State) []Value {
 				}
 				return []Value{{"false", types.Typ[types.Bool]}}
 			}
-		case "lastInt", "lastArgInt", "lastArgStr", "lastArgBool":
+		case "lastInt", "lastResStr", "lastArgInt", "lastArgStr", "lastArgBool":
 			// lastInt("f"): first result of the latest call to f; lastArgInt("f", i): its i-th argument (`opt track`)
 			if e.isSpecHelper(id) {
 				tv := e.pk.Info.Types[c.Args[0]]
@@ -270,7 +284,7 @@ func (e *Engine) evCall(c *ast.CallExpr, st *State) []Value {
 				}
 				name := strings.Trim(tv.Value.ExactString(), "\"")
 				key := e.trackKey(name, 0)
-				if id.Name != "lastInt" {
+				if id.Name != "lastInt" && id.Name != "lastResStr" {
 					iv := e.pk.Info.Types[c.Args[1]]
 					n := 0
 					if iv.Value != nil {
@@ -1338,6 +1352,20 @@ func (e *Engine) evCopy(c *ast.CallExpr, st *State) Value {
 	old := sx("select", h, sx("l_ref", dst.T))
 	e.assume("true", fmt.Sprintf("(forall ((%s %s)) (! (= (select %s %s) (ite (and %s %s) %s (select %s %s))) :pattern ((select %s %s))))",
 		k, e.isort(), narr, k, e.le(doff, k), e.lt(k, e.add(doff, n)), srcAt(e.sub(k, doff)), old, k, narr, k))
+	if e.declared["BSeq"] && e.sortOf(slt.Elem()) == e.byteSort() && !e.bv {
+		// the same facts at the level of byte sequences (bseq(a,i,j) depends only on a[i..j)): the copied range is the
+		// source range, ranges before and after it are unchanged
+		var sarr, soff string
+		if isString(src.Typ) {
+			sarr, soff = sx("s_arr", src.T), sx("s_off", src.T)
+		} else {
+			sarr, soff = sx("select", h, sx("l_ref", src.T)), sx("l_off", src.T)
+		}
+		e.assume(st.pc, eq(sx("bseq", narr, doff, e.add(doff, n)), sx("bseq", sarr, soff, e.add(soff, n))))
+		e.assume("true", fmt.Sprintf("(forall ((lo!c Int) (hi!c Int)) (! (=> (or (<= hi!c %s) (<= %s lo!c)) (= (bseq %s lo!c hi!c) (bseq %s lo!c hi!c))) :pattern ((bseq %s lo!c hi!c))))",
+			doff, e.add(doff, n), narr, old, narr))
+		e.stubsUsed["byte sequences depend only on the bytes in their range (copy/store frame facts for bseq)"] = true
+	}
 	e.heapSet(st, hn, srt, sx("store", h, sx("l_ref", dst.T), narr))
 	return Value{n, types.Typ[types.Int]}
 }
